@@ -394,7 +394,7 @@ def run(ctx):
             "start()'s Deferred fires twice (AlreadyCalledError) or never")
 
     # ---- R5 shutdown order
-    r = ctx.rule("R5", "shutdown: flag first, wait for the processor, commit when a group is set, then stop, then fire", 8,
+    r = ctx.rule("R5", "shutdown: flag first, wait for the processor, commit when a group is set, then stop, then fire", 10,
                  "B")
     csd = ctx.cfg(shutdown)
     flag = [n for n in csd.nodes if node_writes_attr(n, "_shuttingdown") and isinstance(node_assign_value(
@@ -498,6 +498,26 @@ def run(ctx):
                             "stop() cancels the Deferred this handler is chained to (the processor the shutdown waits for); the handler "
                             "calls stop() again, which completes; the outer stop() then works on cleared state: AttributeError out of stop()")
     need(n_st >= 2, "handler call sites of stop() not found")
+    # whoever fires the shutdown Deferred has put the flag back on every path to that point: the flag gates the feeder
+    # loop and the refetch, and a stopped consumer can be started again
+    n_fire = 0
+    for g in sorted([x for x in prog.funcs.values() if x.cls is ci], key=lambda x: x.qname):
+        cg_ = ctx.cfg(g)
+        for n in cg_.nodes:
+            for c in n.calls():
+                if call_name(c) not in ("callback", "errback") or not isinstance(c.func, ast.Attribute):
+                    continue
+                og_ = value_origins(cg_, n.id, c.func.value, params=g.params) or []
+                if not og_ or not all(norm(e_) == "self._shutdown_d" for _n, e_ in og_):
+                    continue
+                n_fire += 1
+                resets = [m.id for m in cg_.nodes if isinstance(node_assign_value(m, "_shuttingdown"), ast.Constant) and node_assign_value(
+                    m, "_shuttingdown").value is False]
+                r.check(bool(resets) and cg_.dominates(resets, n.id), "%s#flag-reset-before-fire" % g.qname,
+                        "the shutdown Deferred is fired on a path that leaves `_shuttingdown` set", where(g, c),
+                        "stop() while shutdown() is pending: the handler runs inside stop(), skips the reset; everything looks stopped, but "
+                        "after start() the feeder loop and the refetch - both gated by the flag - do nothing: the restarted consumer is dead")
+    need(n_fire >= 2, "fire sites of the shutdown Deferred not found")
     cok = ctx.cfg(ok_s)
     stops = [n.id for n in cok.nodes if any(call_name(c) == "stop" and call_recv(c) == "self" for c in n.calls())]
     fire = [n for n in cok.nodes if any(call_name(c) == "callback" for c in n.calls())]
@@ -610,6 +630,37 @@ def run(ctx):
                     "commit-and-stop continuation after the commit teardown - a commit request is outstanding after stop() returned")
     r.info("ordered pairs checked: %d" % order_checked)
 
+    # ---- R9 whatever stop() cancels runs its failure-side continuations synchronously, inside stop(): none of them may
+    # reach a request to the broker or an invocation of the processor without having looked at the stopping state
+    r = ctx.rule("R9", "a failure-side continuation (errback / on-both handler) never reaches a broker request or the processor "
+                       "without a test of `_stopping` / `_start_d` on the way", 8, "C")
+    stop_guards = [("self._stopping", False), ("self._start_d is None", False), ("self._start_d", True), ("not self._start_d", False)]
+
+    def starts_activity(f_, c_):
+        nm_, rc_ = call_name(c_), call_recv(c_) or ""
+        if nm_.startswith("send_") and rc_ == "self.client":
+            return True
+        if rc_ == "self" and nm_ == "processor":
+            return True
+        return nm_ == "maybeDeferred" and bool(c_.args) and norm(c_.args[0]) == "self.processor"
+    n_fs = 0
+    for f_ in sorted([x for x in prog.funcs.values() if x.cls is ci], key=lambda x: x.qname):
+        for n_, g_, kind_ in call_edges(ctx, f_):
+            if kind_ != "reg-eb":
+                continue
+            n_fs += 1
+            # synchronous edges only: what a timer will call later is the teardown order's business (R8)
+            path = guarded_reach(ctx, [g_], starts_activity, stop_guards, edge_filter=lambda n2, g2, k2: not any(
+                call_name(c2) in ("callLater", "LoopingCall", "deferLater") for c2 in n2.calls()))
+            role = "%s@failure-side[%s]" % (f_.qname, (call_recv([c for c in n_.calls() if call_name(c) in (
+                "addErrback", "addBoth", "addCallbacks")][0]) or "?") if any(call_name(c) in ("addErrback", "addBoth", "addCallbacks") for c in n_.calls()) else "?")
+            r.check(path is None, "%s#stop-safe" % role,
+                    "the handler `%s`, which runs when its Deferred fails or is cancelled (stop() cancels every pending one), reaches %s "
+                    "without a test of the stopping state" % (g_.name, " -> ".join("%s:%s" % (q.split(":")[-1], ln) for q, ln, _t in (path or []))),
+                    where(f_, n_.stmt), "stop() cancels the Deferred: the handler runs inside stop() and issues a request / feeds the "
+                    "processor from a consumer that is stopping (or, queued behind what stop() is cancelling, makes stop() loop)")
+    need(n_fs >= 8, "failure-side registrations of the consumer not found")
+
     # ---- R6 restartable
     r = ctx.rule("R6", "stop() resets _stopping, and every handle that gates a function start() calls is clear after stop()", 2, "A")
     from .util import reachable_funcs
@@ -661,6 +712,14 @@ def run(ctx):
 
 
 MUTANTS = [
+    {"id": "shutdown-step-ignores-stop", "file": "consumer.py",
+     "old": "            if self._stopping:\n                # stop() cancelled what we were waiting for (the processor, or\n",
+     "new": "            if False:\n                # stop() cancelled what we were waiting for (the processor, or\n",
+     "expect": "C13.R9", "note": "finding F30"},
+    {"id": "parked-reply-released-on-cancel", "file": "consumer.py",
+     "old": "            self._msg_block_d.addCallback(lambda _: self._handle_fetch_response(responses))",
+     "new": "            self._msg_block_d.addBoth(lambda _: self._handle_fetch_response(responses))", "expect": "C13.R9", "note": "seeded C02-11"},
+
     {"id": "shutdown-waits-for-success-only", "file": "consumer.py",
      "old": "                failure.value.deferred.addBoth(_commit_and_stop)", "new": "                failure.value.deferred.addCallback(_commit_and_stop)",
      "expect": "C13.R5", "note": "finding F27"},
